@@ -211,7 +211,49 @@ func (j *scaleJudge) judgeFrexp(b ref.Bits) {
 	}
 }
 
+// subnormalNew builds New arguments whose value lands in the subnormal band
+// with a chosen pattern of discarded digits (guard digit, zeros, sticky tail).
+func subnormalNew(r *gen.RNG) (int64, int) {
+	k := r.Range(1, 18) // digits discarded below 1e-6176
+	keepDigits := r.Range(0, 18-k)
+	var keep int64
+	if keepDigits > 0 {
+		keep = r.Digits(keepDigits).Int64()
+		if r.Bool() {
+			keep &^= 1 // even kept coefficient: ties go down
+		}
+	}
+	p := int64(1)
+	for i := 0; i < k; i++ {
+		p *= 10
+	}
+	g := int64(r.Pick(0, 4, 5, 5, 5, 9, r.Intn(10)))
+	tail := g * (p / 10)
+	if k > 1 {
+		switch r.Intn(4) {
+		case 0:
+		case 1:
+			tail += 1
+		case 2:
+			tail += p/10 - 1
+		default:
+			tail += int64(r.U64() % uint64(p/10))
+		}
+	}
+	sig := keep*p + tail
+	if sig == 0 {
+		sig = 5
+	}
+	if r.Bool() {
+		sig = -sig
+	}
+	return sig, ref.MinExp - k
+}
+
 func genNewArgs(r *gen.RNG) (int64, int) {
+	if r.Chance(1, 4) {
+		return subnormalNew(r)
+	}
 	var sig int64
 	switch r.Intn(8) {
 	case 0:
